@@ -1,10 +1,12 @@
 use crate::Stream;
 
+pub mod c12;
 pub mod c19;
 
 pub fn lookup(name: &str) -> Option<Box<dyn Stream>> {
     match name {
         "c19" => Some(Box::new(c19::C19::new())),
+        "c12" => Some(Box::new(c12::C12::new())),
         _ => None,
     }
 }
